@@ -104,8 +104,16 @@ def check_config_post(chk, prog, env, rule='C02.policy-table', thorough=False):
         cells = T.config_post_table(prog, env, jwt_key='same' if facts['same_key'] else 'free')
     chk.coverage['caller_facts'] = facts
     bad = 0
+    reach = checker_reach(prog, env)
+    skipped = 0
     for c in cells:
         ok = T.config_post_oracle(env, c)
+        if not ok and c['out'] != 'reject' and not T.setkey_oracle(env, 'checker', c['calg'], c['kalg'], 1) \
+                and reach['only_caller'] and not reach['pairs'].get((c['calg'], c['kalg'])):
+            # composition with the only caller: this (alg, key) pair is outside the setkey table, jwt_checker_setkey never stores it
+            # (C02.setkey-stores) and jwt_checker_verify never lets a callback-selected one through to here (checker_reach)
+            skipped += 1
+            continue
         if c['sig_len'] == 0:
             good = (c['out'] == 'accept-unsigned') if ok else (c['out'] == 'reject' and c['msg'] == 'nonempty')
         else:
@@ -141,6 +149,8 @@ def check_config_post(chk, prog, env, rule='C02.policy-table', thorough=False):
     chk.rule(rule, 'jwt_verify_complete/__verify_config_post vs policy A.3: config.alg 15 x key{NULL,15} x header 15 x '
                    'sig_len{0,1,43} x claims{ok,failed}', len(cells), bad, floor=10000)
     chk.sample({'table': 'verification policy', 'cell': {k: str(v) for k, v in cells[777].items()}})
+    if skipped:
+        chk.coverage['policy_cells_unreachable_from_caller'] = skipped
     return cells
 
 
@@ -283,12 +293,6 @@ class OrderRule(H.CallbackRule):
                 cfg = args[1]
                 alg = it.load(st, cfg.loc, 'alg')
                 key = it.load(st, cfg.loc, 'key')
-                # the signature is checked with the key the token object carries: it must be the admitted one
-                if isinstance(args[0], Ref):
-                    jk = it.load(st, args[0].loc, 'key')
-                    if vkey(jk) != vkey(key):
-                        self.violations.append(('token-key-differs: jwt->key is %r but the key admitted for this verification is %r' % (jk, key),
-                                                node_loc(node)))
             else:
                 jwt = args[0]
                 alg = it.load(st, jwt.loc, 'alg')
@@ -297,7 +301,9 @@ class OrderRule(H.CallbackRule):
             if getattr(self, 'cb_configured', False) and not st.ts.get('cb'):
                 self.violations.append(('callback-skipped: a callback is configured but %s is reached on a path that never called it '
                                         '(the key and algorithm it would select are not used)' % self.sink, node_loc(node)))
-            if sk is None:
+            if self.sink == 'jwt_verify_complete':
+                pass        # checker: decided by composition (check_admission_composed), not by the position of one call
+            elif sk is None:
                 self.violations.append(('no __setkey_check between the callback and %s' % self.sink, node_loc(node)))
             elif sk != (vkey(alg), vkey(key)):
                 self.violations.append(('%s uses alg=%r key=%r but __setkey_check admitted %r' % (self.sink, alg, key, sk),
@@ -318,7 +324,129 @@ class OrderRule(H.CallbackRule):
                                                 'with a key configured): alg=%r key=%r' % (alg, key), node_loc(node)))
 
 
+_REACH = {}
+
+
+def checker_reach(prog, env):
+    """Composition with the caller of jwt_verify_complete.  For every (alg, key) pair a callback can leave in its config - with a
+    fresh checker, and with a checker whose stored key is the very key the callback keeps - and for every stored pair without a
+    callback: does jwt_checker_verify get to jwt_verify_complete, and with which pair in the config?"""
+    if id(prog) in _REACH:
+        return _REACH[id(prog)]
+    import effects
+    unit = T.VARIANT_UNIT['checker']
+    prog.func(unit, 'jwt_checker_verify')
+    model = build_model()
+    algs = env.all_alg_vals
+    NONE = env.alg_val['none']
+    KEY = ('obj', 'cbkey')
+    out = {'pairs': {}, 'differs': [], 'runs': 0, 'sinks': 0}
+    eff = effects.Effects(prog)
+    callers = sorted(k[1] for k, info in eff.funcs.items() if any(c[1] == 'jwt_verify_complete' for c in info['calls']))
+    out['only_caller'] = callers == ['jwt_checker_verify']
+    out['callers'] = callers
+
+    class R(H.CallbackRule):
+        alloc_may_fail = False
+        cb_outcomes = ('ret0',)
+
+        def __init__(self, pair):
+            self.pair = pair
+            self.seen = []
+
+        def keep_event(self, ev):
+            return False
+
+        def havoc_config(self, it, s, cfg):
+            calg, kalg = self.pair
+            pre = cfg.path + ('.' if cfg.path else '')
+            it.store(s, cfg.loc, pre + 'alg', Int(calg))
+            it.store(s, cfg.loc, pre + 'key', NULL if kalg is None else Ref(KEY))
+
+        def on_call(self, it, st, name, args, node):
+            if name == 'jwt_verify_complete':
+                cfg = args[1]
+                self.seen.append((vkey(it.load(st, cfg.loc, 'alg')), vkey(it.load(st, cfg.loc, 'key')), node_loc(node)))
+
+    def one(pair, cb, stored):
+        calg, kalg = pair
+        rule = R(pair)
+        it = Interp(prog, unit, model=model, rule=rule, budget=300000,
+                    hooks=H.std_hooks(env, extra={'jwt_verify_complete': lambda it, st, args, node: [(st, args[0])]}))
+        st = State()
+        o = H.common_obj(st, 'checker', False)
+        H.set_cb(st, o, cb)
+        salg, skey = stored
+        st.mem[(o, 'c.alg')] = Int(salg)
+        st.mem[(o, 'c.key')] = NULL if not skey else Ref(KEY)
+        if kalg is not None:
+            T.mk_key(st, 'cbkey', alg=kalg)
+        H.bind_provider(st, 'openssl')
+        it.run('jwt_checker_verify', [Ref(o), Term(('token',), ptr=True)], st)
+        out['runs'] += 1
+        want = (vkey(Int(calg)), vkey(NULL if kalg is None else Ref(KEY)))
+        for a, k, loc in rule.seen:
+            out['sinks'] += 1
+            if (a, k) != want:
+                out['differs'].append((pair, cb, (a, k), loc))
+        if rule.seen:
+            out['pairs'][pair] = True
+        else:
+            out['pairs'].setdefault(pair, False)
+    first = [a for a in algs if a != NONE][0]
+    for calg in algs:
+        for kalg in [None] + algs:
+            pair = (calg, kalg)
+            # route 1: a callback on a checker without a key selects the pair
+            one(pair, True, (NONE, False))
+            if kalg is not None:
+                # route 2: the checker holds this key under an admitted algorithm and the callback keeps the key, changing only the algorithm
+                for salg in ([first] if kalg == NONE else [NONE, kalg]):
+                    one(pair, True, (salg, True))
+            # route 3: no callback; the stored pair (only admitted ones can be stored: C02.setkey-stores)
+            if T.setkey_oracle(env, 'checker', calg, kalg, 1):
+                one(pair, False, (calg, kalg is not None))
+    _REACH[id(prog)] = out
+    return out
+
+
+def check_admission_composed(chk, prog, env):
+    """'a key and algorithm [the callback] selects are subject to the same admission rules as setkey', decided on verdicts: a pair
+    outside the setkey table must not be accepted by jwt_checker_verify, whichever of its layers refuses it"""
+    reach = checker_reach(prog, env)
+    bad = 0
+    for pair, cb, got, (f, l) in reach['differs'][:8]:
+        bad += 1
+        chk.add(Finding('C02.check-after-callback', f or 'libjwt/jwt-common.c', 'jwt_checker_verify', 'order[uses-other-pair]',
+                        'jwt_verify_complete is entered with alg/key %r although the %s pair is alg=%s key=%s' % (
+                            got, 'callback-selected' if cb else 'stored', env.aname(pair[0]),
+                            'NULL' if pair[1] is None else 'key(alg %s)' % env.aname(pair[1])), line=l))
+    inadm = set(p for p, r in reach['pairs'].items() if r and not T.setkey_oracle(env, 'checker', p[0], p[1], 1))
+    n = len(reach['pairs'])
+    if inadm:
+        facts = caller_facts(chk, prog, env)
+        cells = T.config_post_table(prog, env, jwt_key='same' if facts['same_key'] else 'free', pairs=inadm)
+        seen = set()
+        for c in cells:
+            if c['out'] != 'reject' and (c['calg'], c['kalg']) not in seen:
+                seen.add((c['calg'], c['kalg']))
+                bad += 1
+                chk.add(Finding('C02.check-after-callback', 'libjwt/jwt-common.c', 'jwt_checker_verify', 'order[no-admission]',
+                                'a callback can select alg=%s with %s, a pair outside the setkey table: neither jwt_checker_verify nor '
+                                'jwt_verify_complete refuses it (header=%s sig_len=%d -> %s)' % (
+                                    env.aname(c['calg']), 'no key' if c['kalg'] is None else 'a key whose alg attribute is ' + env.aname(c['kalg']),
+                                    env.aname(c['jalg']), c['sig_len'], c['out'])))
+    chk.coverage['checker_reach'] = {'runs': reach['runs'], 'sinks': reach['sinks'], 'callers': reach['callers'],
+                                     'inadmissible_pairs_reaching_policy_layer': len(inadm)}
+    if not reach['sinks']:
+        raise AnalysisBroken('jwt_checker_verify never reaches jwt_verify_complete in the composed runs')
+    chk.rule('C02.check-after-callback.composed', 'jwt_checker_verify x every (alg, key) pair from the callback or from setkey: a pair outside '
+             'the setkey table is refused by some layer before a verdict; the pair entering jwt_verify_complete is the selected one',
+             n, bad, floor=200)
+
+
 def check_order(chk, prog, env):
+    chk.guard('admission composed', check_admission_composed, chk, prog, env)
     model = build_model()
     for variant, entry, sink in (('checker', 'jwt_checker_verify', 'jwt_verify_complete'),
                                  ('builder', 'jwt_builder_generate', 'jwt_head_setup')):
